@@ -100,6 +100,33 @@ def gen_c06_large(seed, index):
     return {"cfg": cfg, "ops": [], "rows": {"d": dec, "r": rew, "c": ctx}, "cuts": cuts, "queries": [q]}
 
 
+def gen_c06_wide(seed, index):
+    """linear policies with 16 features and l2_lambda != 1, an arm that is missing from the first chunk and then arrives
+    one row (two rows) at a time: whatever short-cut updates the inverse for thin chunks must agree with one fit"""
+    rng = random.Random("%s/C06-wide/%s" % (seed, index))
+    lpk = ["linucb", "lingreedy", "lints"][index % 3]
+    lp = G.gen_lp(rng, lpk)
+    lp["lam"] = rng.choice([0.5, 2.0, 4.0])
+    if "eps" in lp:
+        lp["eps"] = 0.0
+    if lpk == "lints":
+        lp["alpha"] = 1e-9
+    arms = [1, 2, 3, 4]
+    d = rng.choice([16, 16, 9])
+    n0 = 60
+    dec = [arms[i % 3] for i in range(n0)]
+    tail = rng.choice([6, 10])
+    dec += [4 if rng.random() < 0.7 else rng.choice(arms[:3]) for _ in range(tail)]
+    n = len(dec)
+    rew = [float(rng.choice([0, 1, 2, 3])) for _ in range(n)]
+    ctx = [[float(rng.randint(0, 4)) for _ in range(d)] for _ in range(n)]
+    step = rng.choice([1, 2])
+    cuts = list(range(n0, n, step))
+    q = {"op": "pexp", "c": [[float(rng.randint(0, 4)) for _ in range(d)] for _ in range(3)]}
+    cfg = {"lp": lp, "np": None, "arms": arms, "seed": rng.randint(0, 10 ** 6), "binz": None, "n_jobs": 1}
+    return {"cfg": cfg, "ops": [], "rows": {"d": dec, "r": rew, "c": ctx}, "cuts": cuts, "queries": [q]}
+
+
 @twin("batch_vs_chunked")
 @T.quiet
 def batch_vs_chunked(scn):
@@ -183,10 +210,14 @@ def gen_c07_orphan(seed, index):
            "binz": None, "n_jobs": 1}
     rew = (lambda: rng.choice([0, 1])) if lpk == "thompson" else (lambda: rng.choice([1, 2, 3, 5, 8]))
     n1 = rng.choice([40, 80, 150])
+    big = index % 10 == 9          # D with more than 2^10 rows and no unique clustering
+    if big:
+        n = 4
+        cfg["np"]["n"] = n
     pt = lambda: [round(rng.uniform(-2, 2), 2), round(rng.uniform(-2, 2), 2)]      # noqa: E731
     fit1 = {"op": "fit", "d": [rng.choice(arms) for _ in range(n1)], "r": [rew() for _ in range(n1)], "c": [pt() for _ in range(n1)]}
-    n2 = n + rng.choice([0, 1, 2, 4, 7])
-    if rng.random() < 0.4:
+    n2 = n + rng.choice([0, 1, 2, 4, 7]) if not big else rng.choice([1100, 1500])
+    if rng.random() < 0.4 and not big:
         # fewer distinct rows than clusters
         base = [pt() for _ in range(rng.randint(2, n - 1))]
         c2 = [list(rng.choice(base)) for _ in range(n2)]
@@ -253,6 +284,26 @@ def cold_first_scenario(rng, g):
 def gen_c09(seed, index):
     prof = {"name": "C09", "lp": ALL_LP, "np": [None, None] + G.NP_KINDS,
             "weights": {"fit": 1, "pfit": 3, "query": 1, "add": 1.5, "rem": 1, "warm": 0.5}, "end_query": False}
+    if index % 10 == 7:
+        # many arms (more than any block size of 16), only the first few observed and those below zero: every other
+        # arm ties exactly at the expectation of a never-observed arm, and the *first* of them must be predicted
+        rng, g = _gen(seed, index, dict(prof, name="C09m", np=[None, None, "knn"], lp=["linucb", "lingreedy", "ucb", "greedy", "linucb"]))
+        if "eps" in g.cfg["lp"]:
+            g.cfg["lp"]["eps"] = 0.0
+        arms = [100 + 3 * i for i in range(24)] if index % 20 == 7 else ["item-%02d" % i for i in range(24)]
+        g.arms = list(arms)
+        g.spare = []
+        g.cfg["arms"] = list(arms)
+        if g.cfg.get("np"):
+            g.cfg["np"]["kk"] = 2
+        d, r, c = g.batch(12, allow_unknown=False)
+        d = [arms[i % 3] for i in range(len(d))]
+        r = [-5 - abs(x) for x in r]
+        g.stored = list(c or [])
+        g.fitted = True
+        g.ops = []
+        g.op_query("pexp")
+        return {"cfg": g.cfg, "ops": [{"op": "fit", "d": d, "r": r, "c": c}], "queries": g.ops}
     if index % 10 == 9:
         # every observed arm far below zero, the live bandit predicts, then an arm arrives that is never observed (its
         # expectation 0 is the unique maximum for the deterministic policies): nothing a prediction left behind may
@@ -354,7 +405,8 @@ def gen_c09_large(seed, index):
            "c": [[float(rng.randint(0, 4)) for _ in range(d)] for _ in range(n)] if (npk or lpk in G.LIN_KINDS) else None}
     m = rng.choice([1025, 1025, 2049, 1024, 513])
     contextual = fit["c"] is not None
-    q = {"op": "pexp", "c": [[float(rng.randint(0, 4)) for _ in range(d)] for _ in range(m)] if contextual else None}
+    # (context-free policies accept contexts too: one result per row)
+    q = {"op": "pexp", "c": [[float(rng.randint(0, 4)) for _ in range(d)] for _ in range(m)] if (contextual or index % 2 == 0) else None}
     cfg = {"lp": lp, "np": npc, "arms": arms, "seed": rng.randint(0, 10 ** 6), "binz": None, "n_jobs": 1}
     return {"cfg": cfg, "ops": [fit], "queries": [q]}
 
@@ -407,6 +459,35 @@ def gen_c10(seed, index):
     prof = {"name": "C10", "lp": ALL_LP, "np": [None, None] + G.NP_KINDS,
             "weights": {"fit": 1, "pfit": 3, "query": 0, "add": 1.5, "rem": 1, "warm": 0.5}, "end_query": False,
             "n_ops": (1, 5)}
+    if index % 25 == 3:
+        # TreeBandit leaves with hundreds of rewards: query, append to the leaves, query
+        h = gen_huge(seed, index, ["tree"], "C10", sizes=[(2400, 40, 65)])
+        h["cfg"]["lp"] = {"k": "ucb", "alpha": 1.0} if index % 50 == 3 else h["cfg"]["lp"]
+        h["cfg"]["arms"] = [1, 2]
+        for op in h["ops"]:
+            if op["op"] in ("fit", "pfit"):
+                op["d"] = [1 + (i % 2) for i in range(len(op["d"]))]
+        return {"cfg": h["cfg"], "ops": [h["ops"][0]], "queries": [dict(h["ops"][1], c=h["ops"][1]["c"][:20])],
+                "cont": [h["ops"][2], dict(h["ops"][3], c=h["ops"][3]["c"][:20]), dict(h["ops"][4], c=h["ops"][4]["c"][:20])]}
+    if index % 25 == 8:
+        # contexts far from the origin (2^27 + small integers, exact in double precision, equal in single precision):
+        # two different rows queried one after the other, no training in between
+        rng = random.Random("%s/C10-off/%s" % (seed, index))
+        npc = G.gen_np(rng, rng.choice(["knn", "radius"]), 3, 2)
+        if npc["k"] == "radius":
+            npc["probs"] = None
+            npc["r"] = 1.5
+            npc["metric"] = "euclidean"
+        else:
+            npc["kk"] = 1
+        off = 2.0 ** 27
+        pts = [[off + float(rng.randint(0, 6)), off + float(rng.randint(0, 6))] for _ in range(30)]
+        arms = [1, 2, 3]
+        fit = {"op": "fit", "d": [arms[i % 3] for i in range(30)], "r": [float(rng.choice([0, 1, 2, 5])) for _ in range(30)], "c": pts}
+        q1 = {"op": "pexp", "c": [list(pts[0])]}
+        q2 = {"op": "pexp", "c": [[pts[0][0] + 3.0, pts[0][1] + 2.0]]}
+        cfg = {"lp": _det_lp(rng, linear_ok=False), "np": npc, "arms": arms, "seed": rng.randint(0, 10 ** 6), "binz": None, "n_jobs": 1}
+        return {"cfg": cfg, "ops": [fit], "queries": [q1], "cont": [q2, dict(q2, op="pred"), q1]}
     rng, g = _gen(seed, index, prof)
     if index % 5 == 0:
         # every fifth scenario: a policy without neighbourhood policy that supports warm start, kinds in turn
@@ -961,6 +1042,43 @@ def gen_nhood(seed, index, np_kinds, name):
             if op.get("c"):
                 op["c"] = [[1.7e9 + v * scale + rng.randint(0, 90) for v in row] for row in op["c"]]
     return scn
+
+
+def gen_huge(seed, index, np_kinds, name, det=True, sizes=None):
+    """the same relations on long histories and many query rows: 1100 .. 2600 stored rows (beyond 2^10 and 2^11, not a
+    multiple of any power of two), a further partial_fit, query batches of 65 / 520 rows (rows x queries beyond 2^20)"""
+    rng = random.Random("%s/%s-huge/%s" % (seed, name, index))
+    npk = np_kinds[index % len(np_kinds)]
+    lp = _det_lp(rng, linear_ok=False) if det else G.gen_lp(rng, rng.choice(["thompson", "greedy", "softmax", "ucb"]))
+    if not det and "eps" in lp:
+        lp["eps"] = 0.5
+    arms = [1, 2, 3]
+    npc = G.gen_np(rng, npk, len(arms), 2)
+    if npc["k"] in ("radius", "lsh"):
+        npc["probs"] = None
+    if npc["k"] == "radius":
+        npc["r"] = 1.0
+        npc["metric"] = rng.choice(["euclidean", "cityblock", "chebyshev"])
+    if npc["k"] == "knn":
+        npc["kk"] = rng.choice([1, 3, 40]) if not det else rng.choice([1, 3])
+    if npc["k"] == "clusters":
+        npc["n"] = rng.choice([3, 5])
+    if npc["k"] == "tree":
+        npc["params"] = {"max_depth": 1}
+    n1, n2, m = rng.choice(sizes or [(1100, 30, 65), (2100, 513, 520), (2600, 30, 520), (1500, 700, 65)])
+    if npc["k"] == "knn" and det:
+        pt = lambda: [round(rng.uniform(0, 12), 3), round(rng.uniform(0, 12), 3)]      # noqa: E731  (no ties)
+    else:
+        pt = lambda: [float(rng.randint(0, 12)), float(rng.randint(0, 12))]            # noqa: E731
+    rew = (lambda: rng.choice([0, 1])) if lp["k"] == "thompson" else (lambda: rng.choice([0, 1, 2, 3, 5]))
+
+    def batch(n):
+        return {"d": [rng.choice(arms) for _ in range(n)], "r": [rew() for _ in range(n)], "c": [pt() for _ in range(n)]}
+    q = [pt() for _ in range(m)]
+    ops = [dict(batch(n1), op="fit"), {"op": "pexp", "c": q}, dict(batch(n2), op="pfit"), {"op": "pexp", "c": q},
+           {"op": "pred", "c": q[:65]}]
+    cfg = {"lp": lp, "np": npc, "arms": arms, "seed": rng.randint(0, 10 ** 6), "binz": None, "n_jobs": 1}
+    return {"cfg": cfg, "ops": ops}
 
 
 def _train_rows(scn, purge_on_remove=False):
@@ -1746,9 +1864,45 @@ def gen_sim(seed, index):
     n_test = n - int(n * (1 - test_size))
     batch = rng.choice([0, 0, 1, 2, 3, n_test // 2 or 1, n_test])
     batch = min(batch, max(1, n_test - 1)) if batch else 0
+    rs = random.Random("%s/sim-scale/%s" % (seed, index))
+    u = rs.random()
+    offset_used = False
+    if u < 0.08 and ltype == "int":
+        # numeric labels of large magnitude that differ in the last digit (ids)
+        mp = {a: 100000 + i for i, a in enumerate(arms)}
+        arms = [mp[a] for a in arms]
+        decisions = [mp[a] for a in decisions]
+        for bc in bandits:
+            bc["arms"] = list(arms)
+    elif u < 0.16 and contextual and not any(bc["lp"]["k"] in G.LIN_KINDS for bc in bandits):
+        # contexts far from the origin with unit spread (ids, timestamps): exact in binary floating point (not for the
+        # linear policies: the normal equations become numerically singular)
+        off = 2.0 ** 27
+        contexts = [[off + v for v in row] for row in contexts]
+        offset_used = True
+        for bc in bandits:
+            if bc.get("np") and bc["np"]["k"] in ("radius", "knn"):
+                bc["np"]["metric"] = "euclidean"
+                if bc["np"]["k"] == "radius":
+                    bc["np"]["r"] = rs.choice([1.0, 1.5, 2.0])
+    elif u < 0.22 and contextual:
+        for bc in bandits:
+            if bc.get("np") and bc["np"]["k"] == "lsh":
+                bc["np"]["ndim"] = rs.choice([9, 12, 16])
+    elif u < 0.28 and contextual and not boundary:
+        # a long log replayed online in batches of more than 100 rows
+        n = rs.choice([420, 640])
+        decisions = [rng.choice(data_arms if u >= 0.08 else arms) for _ in range(n)]
+        rewards = [rng.choice([0, 1]) if binary else rng.choice([0, 1, 2, 3, 0.5, 1.5, -1]) for _ in range(n)]
+        contexts = [[float(rng.randint(0, 4)) for _ in range(d)] for _ in range(n)]
+        test_size = 0.5
+        batch = rs.choice([130, 200])
+        bandits = bandits[:2]
+        for bc in bandits:
+            bc["n_jobs"] = 1
     return {"bandits": bandits, "decisions": decisions, "rewards": rewards, "contexts": contexts, "test_size": test_size,
             "scaler": (random.Random("%s/sim-scaler/%s" % (seed, index)).choice([None, None, None, "standard", "minmax"])
-                       if contextual else None),
+                       if contextual and not offset_used else None),
             "is_ordered": True if boundary else rng.random() < 0.5, "batch_size": batch, "is_quick": rng.random() < 0.5, "seed": rng.randint(0, 10 ** 6),
             "cfg": {"lp": bandits[0]["lp"], "np": bandits[0]["np"], "arms": arms}, "ops": []}
 
